@@ -890,4 +890,206 @@ let () =
       let bytes = if rand_int r 5 = 0 then mutate r bytes else bytes in
       case { c with asz = aszv } bytes
     done)
+
+(* ================================================================== EhHdrTableIter histories *)
+type hop = HNext | HNth of Z.t | HHint
+let hop_tok = function HNext -> "n" | HNth k -> "k" ^ Z.to_string k | HHint -> "h"
+let hop_model = function HNext -> M.ONext | HNth k -> M.ONth (n_of_z k) | HHint -> M.OHint
+
+let hiter_model dbg be hasz hb (hbytes : int list) (ops : hop list) : string = guard (fun () ->
+  let hbs = sbases_of hb in
+  match M.hdr_parse dbg be hbs (n_of_int hasz) (bytes_of_ints hbytes) with
+  | Res.Err e -> "err " ^ Errnames.name e
+  | Res.Panic -> raise Panicked | Res.OutOfFuel -> raise Fuel
+  | Res.Ok hd ->
+    (match M.hdr_table hd with
+     | None -> "ok notable"
+     | Some hd ->
+       let obs = M.tbl_run dbg hbs hd (M.tbl_iter hd) (List.map hop_model ops) in
+       "ok" ^ String.concat "" (List.map (function
+         | M.BItem None -> " N"
+         | M.BItem (Some (a, b)) -> " S" ^ ptr_str a ^ ":" ^ ptr_str b
+         | M.BErr e -> " E" ^ Errnames.name e
+         | M.BHint (lo, hi) -> " H" ^ string_of_n lo ^ ":" ^ (match hi with Some x -> string_of_n x | None -> "-")
+         | M.BPanic -> raise Panicked | M.BFuel -> raise Fuel) obs)))
+
+let () =
+  register "c05.hiter" ~doc:"EhHdrTableIter as a state machine: histories of next / nth k / size_hint on one iterator; tables of 0..6 rows x field sizes 2/4/8 (signed and unsigned) x 0/half-row/one-row/five-and-a-bit rows of trailing bytes x {nth k for every k in 0..len+1 then drain, interleaved next/nth, nth after the end, claimed count above/below the real one, huge k}; size_hint after every op; harness oracle: every yielded row is row i+k of a fresh full scan" (fun ~seed ~n emit ->
+    let le w v = List.init w (fun i -> (v lsr (8 * i)) land 255) in
+    let be_ w v = List.rev (le w v) in
+    let case ~be ~tenc ~count ~nrows ~pad (ops : hop list) =
+      let size = match tenc land 15 with 2 | 10 -> 2 | 3 | 11 -> 4 | _ -> 8 in
+      let w = if be then be_ else le in
+      let rows = List.concat (List.init nrows (fun i -> w size (0x100 * (i + 1)) @ w size (0x1000 + 0x10 * i))) in
+      let hbytes = [1; 0x03; 0x03; tenc] @ w 4 0x1000 @ w 4 count @ rows @ pad in
+      let cs = Printf.sprintf "c05.hiter %s 8 - - - %s%s" (b01 be) (hex_of_ints hbytes)
+                 (String.concat "" (List.map (fun o -> " " ^ hop_tok o) ops)) in
+      both emit cs (fun dbg -> hiter_model dbg be 8 (None, None, None) hbytes ops) in
+    let drain k = List.concat (List.init k (fun _ -> [HNext; HHint])) in
+    let zi = Z.of_int in
+    List.iter (fun tenc ->
+      let size = match tenc land 15 with 2 | 10 -> 2 | 3 | 11 -> 4 | _ -> 8 in
+      List.iter (fun pad ->
+        for len = 0 to 6 do
+          (* nth k for every k, then drain *)
+          for k = 0 to len + 1 do
+            case ~be:false ~tenc ~count:len ~nrows:len ~pad ([HHint; HNth (zi k); HHint] @ drain (len + 2))
+          done;
+          (* interleaved *)
+          case ~be:false ~tenc ~count:len ~nrows:len ~pad [HNext; HHint; HNth Z.one; HHint; HNext; HNth Z.zero; HHint; HNth (zi 2); HHint; HNext; HNext; HHint];
+          case ~be:(len mod 2 = 1) ~tenc ~count:len ~nrows:len ~pad [HNth Z.zero; HNth Z.zero; HHint; HNth Z.one; HNth Z.one; HHint; HNext; HNth (zi 3); HHint; HNext];
+          (* nth after the end *)
+          case ~be:false ~tenc ~count:len ~nrows:len ~pad (drain (len + 1) @ [HNth Z.zero; HHint; HNth Z.one; HNth (zi 5); HNext; HHint; HNth Z.zero]);
+          (* claimed count differs from the rows present *)
+          case ~be:false ~tenc ~count:(len + 2) ~nrows:len ~pad ([HNth (zi (max 0 (len - 1))); HHint] @ drain 4 @ [HNth Z.zero; HHint]);
+          if len >= 2 then case ~be:false ~tenc ~count:(len - 1) ~nrows:len ~pad ([HNth Z.one; HHint] @ drain (len + 1) @ [HNth Z.zero]);
+          (* k so large that k * row_size overflows, or only the saturating subtraction matters *)
+          case ~be:false ~tenc ~count:len ~nrows:len ~pad [HNth (p2 61); HHint; HNext; HNth (Z.pred (p2 64)); HHint; HNext; HNth (p2 32); HHint]
+        done)
+        [ []; List.init size (fun _ -> 0x55); List.init (2 * size) (fun i -> i + 1); List.init (10 * size + 1) (fun i -> 0xa0 + (i land 15)) ])
+      [0x02; 0x0a; 0x03; 0x0b; 0x04; 0x0c];
+    (* variable-size and other encodings: nth refuses, next works *)
+    List.iter (fun tenc ->
+      case ~be:false ~tenc ~count:2 ~nrows:2 ~pad:[1; 2; 3] [HHint; HNth Z.zero; HHint; HNext; HNth Z.one; HNext; HHint; HNext])
+      [0x01; 0x09; 0x00; 0x1b; 0x3b; 0x83; 0xff];
+    let r = mk_rng seed in
+    for _ = 1 to n do
+      let tenc = pick r [| 0x02; 0x0a; 0x03; 0x0b; 0x04; 0x0c; 0x1b; 0x3b; 0x01 |] in
+      let nrows = rand_int r 7 in
+      let count = match rand_int r 6 with 0 -> nrows + rand_int r 3 | 1 -> max 0 (nrows - 1) | _ -> nrows in
+      let pad = rand_bytes r (pick r [| 0; 0; 3; 8; 16; 40 |]) in
+      let ops = List.init (1 + rand_int r 12) (fun _ ->
+        match rand_int r 6 with 0 | 1 -> HNext | 2 -> HHint | 3 -> HNth Z.zero | 4 -> HNth (zi (rand_int r 4)) | _ -> HNth (zi (rand_int r 9))) in
+      case ~be:(rand_int r 4 = 0) ~tenc ~count ~nrows ~pad ops
+    done)
+
+(* ================================================================== mixed-operation histories of the other iterators *)
+(* c05.hist <kind> ...
+     E <cfg> <bytes> <j>*        CfiEntriesIter: clone the iterator after j items; every clone must continue exactly
+                                 like the original (expected = the plain traversal, as c05.ent)
+     I <cfg> <bytes> <j>         CallFrameInstructionIter of the first FDE that parses (CIE then FDE stream):
+                                 clone after j items, resume; expected = number of instructions and how each stream ends
+     T <cfg> <bytes> <j>         UnwindTable of the first FDE that parses: next_row j times, then into_current_row
+     L <hdr case> <j> <a>        EhHdrTable: iterate j rows, lookup(a) in between, drain; expected = rows, lookup result *)
+let first_fde dbg (c : cfg) sec : M.fde option =
+  match model_fdes dbg c sec with f :: _ -> Some f | [] -> None
+
+let count_items (items : CfaSpec.item list) : string =
+  let rec go n = function
+    | [] -> Printf.sprintf "%d:ok" n
+    | CfaSpec.It _ :: r -> go (n + 1) r
+    | CfaSpec.Bad e :: _ -> Printf.sprintf "%d:%s" n (Errnames.name e)
+    | CfaSpec.BadPanic :: _ -> raise Panicked
+    | CfaSpec.BadFuel :: _ -> raise Fuel in
+  go 0 items
+
+let hist_I_model dbg (c : cfg) sec : string = guard (fun () ->
+  match first_fde dbg c sec with
+  | None -> "ok nofde"
+  | Some f ->
+      let fi = U.fde_in_of c.be false f in
+      let d = RN.f_dparams fi in
+      "ok c" ^ count_items (RN.decode dbg d fi.RN.f_cie_off fi.RN.f_cie)
+      ^ " f" ^ count_items (RN.decode dbg d fi.RN.f_fde_off fi.RN.f_fde))
+
+let hist_T_model dbg (c : cfg) sec (j : int) : string = guard (fun () ->
+  match first_fde dbg c sec with
+  | None -> "ok nofde"
+  | Some f ->
+      let fi = U.fde_in_of c.be false f in
+      let caps = S_c06.caps_of_storage 0 in
+      (match RN.new_ctx caps with
+       | Res.Ok cx ->
+           if not (RN.valid_asize fi.RN.f_asize) then "err UnsupportedAddressSize" else
+           (match RN.table_new dbg caps fi cx with
+            | Res.Err e -> "err " ^ Errnames.name e
+            | Res.Panic -> raise Panicked | Res.OutOfFuel -> raise Fuel
+            | Res.Ok t0 ->
+                let d = RN.f_dparams fi in
+                let b = Buffer.create 64 in
+                Buffer.add_string b "ok";
+                let t = ref t0 and it = ref { RN.it_off = fi.RN.f_fde_off; it_bytes = fi.RN.f_fde } in
+                let stop = ref false in
+                for _ = 1 to j do
+                  if not !stop then begin
+                    let (r, (t', it')) = RN.next_row dbg caps d !t !it in
+                    t := t'; it := it';
+                    (match r with
+                     | Res.Ok (Some rw) -> Buffer.add_string b (Printf.sprintf " %s-%s" (string_of_n rw.RN.r_start) (string_of_n rw.RN.r_end))
+                     | Res.Ok None -> Buffer.add_string b " none"
+                     | Res.Err e -> Buffer.add_string b (" E" ^ Errnames.name e); stop := true
+                     | Res.Panic -> raise Panicked | Res.OutOfFuel -> raise Fuel)
+                  end
+                done;
+                (* into_current_row *)
+                (if !t.RN.t_cur_valid then
+                   (match RN.top !t.RN.t_ctx with
+                    | Res.Ok rw -> Buffer.add_string b (" cur=" ^ S_c06.pr_row rw)
+                    | _ -> raise Panicked)
+                 else Buffer.add_string b " cur=none");
+                Buffer.contents b)
+       | _ -> "panic"))
+
+let hist_L_model dbg (h : hcase) (j : int) (a : Z.t) : string = guard (fun () ->
+  let hbs = sbases_of h.hb in
+  match M.hdr_parse dbg h.hbe hbs (n_of_int h.hasz) (bytes_of_ints h.hbytes) with
+  | Res.Err e -> "err " ^ Errnames.name e
+  | Res.Panic -> raise Panicked | Res.OutOfFuel -> raise Fuel
+  | Res.Ok hd ->
+    (match M.hdr_table hd with
+     | None -> "ok notable"
+     | Some hd ->
+       let (rows, e) = get (M.tbl_all dbg hbs hd) in
+       let b = Buffer.create 64 in
+       Buffer.add_string b "ok rows";
+       List.iter (fun (x, y) -> Buffer.add_string b (" " ^ ptr_str x ^ ":" ^ ptr_str y)) rows;
+       (match e with None -> Buffer.add_string b " end" | Some e -> Buffer.add_string b (" err " ^ Errnames.name e));
+       ignore j;
+       Buffer.add_string b (" | " ^ (match M.hdr_lookup dbg hbs hd (n_of_z a) with
+         | Res.Ok p -> ptr_str p | Res.Err e -> Errnames.name e
+         | Res.Panic -> raise Panicked | Res.OutOfFuel -> raise Fuel));
+       Buffer.contents b))
+
+let () =
+  register "c05.hist" ~doc:"mixed-operation histories of the other public iterators of read/cfi.rs: CfiEntriesIter clone+resume at every position; CallFrameInstructionIter clone+resume; UnwindTable next_row x j then into_current_row (valid exactly after a delivered row); EhHdrTable::lookup between two halves of a table iteration" (fun ~seed ~n emit ->
+    let r = mk_rng seed in
+    let secs = ref [] in
+    grid_sections (fun c es -> if List.length !secs < 40 || rand_int r 12 = 0 then secs := (c, ints_of_bytes (encode c es)) :: !secs);
+    (* E: every grid section kept, clones at all positions 0..4 *)
+    List.iter (fun ((c : cfg), bytes) ->
+      both emit (Printf.sprintf "c05.hist E %s %s 0 1 2 3 4" (cfg_toks c) (hex_of_ints bytes))
+        (fun dbg -> dump_model dbg c (bytes_of_ints bytes))) !secs;
+    for i = 1 to n do
+      if not (Streams.mine ()) then Streams.skip () else begin
+        let r = mk_rng (seed * 3000017 + i) in
+        let clean = rand_int r 3 <> 0 in
+        let (c, es) = uwi_section r ~clean in
+        let bytes0 = ints_of_bytes (encode c es) in
+        let bytes = if rand_int r 5 = 0 then mutate_body r (List.map int_of_n (S.offsets (sparams_of c) es)) bytes0 else bytes0 in
+        let bytes = if all_setloc_plain c false (bytes_of_ints bytes) then bytes else bytes0 in
+        let sec = bytes_of_ints bytes in
+        let j = rand_int r 8 in
+        match i mod 3 with
+        | 0 -> both emit (Printf.sprintf "c05.hist E %s %s %d %d" (cfg_toks c) (hex_of_ints bytes) j (j + 2))
+                 (fun dbg -> dump_model dbg c sec)
+        | 1 -> both emit (Printf.sprintf "c05.hist I %s %s %d" (cfg_toks c) (hex_of_ints bytes) j)
+                 (fun dbg -> hist_I_model dbg c sec)
+        | _ -> both emit (Printf.sprintf "c05.hist T %s %s %d" (cfg_toks c) (hex_of_ints bytes) j)
+                 (fun dbg -> hist_T_model dbg c sec j)
+      end
+    done;
+    for i = 1 to n / 3 + 6 do
+      if not (Streams.mine ()) then Streams.skip () else begin
+        let r = mk_rng (seed * 9000011 + i) in
+        match gen_wf_hdr_retry r ~nfde:(1 + rand_int r 8) 10 with
+        | Some h ->
+            let h = if rand_int r 4 = 0 then perturb_hdr r h else h in
+            let j = rand_int r 6 in
+            let a = List.nth h.addrs (rand_int r (List.length h.addrs)) in
+            let l = hcase_line "x" { h with addrs = [] } in
+            both emit (Printf.sprintf "c05.hist L %s %d %s" (String.sub l 2 (String.length l - 2)) j (Z.to_string a))
+              (fun dbg -> hist_L_model dbg h j a)
+        | None -> Streams.skip ()
+      end
+    done)
 let init () = ()
